@@ -250,3 +250,52 @@ theorem escL_inj (ps qu : Bool) (hpq : ps = true ∨ qu = true) (a b : List Char
     | asis hs' hq' ht' _ e' => rw [e, e'] at h; exact h
 
 end DendroModel.C10.Aux
+
+namespace DendroModel.C10.Aux
+open DendroModel DendroModel.C10
+
+/-! ### the scope of the case folding -/
+
+/-- a label the model's case folding is meant for: every character is ASCII or Latin-1 -/
+def InScope (l : String) : Prop := ∀ c ∈ l.toList, c.toNat < 256
+
+theorem lowerChar_out_of_scope (c : Char) (h : 256 ≤ c.toNat) : lowerChar c = c := by
+  unfold lowerChar
+  simp only
+  rw [if_neg (by omega), if_neg (by omega)]
+
+set_option maxRecDepth 100000 in
+/-- on Latin-1 the folding is the table: `A`–`Z` and `À`–`Þ` (without `×`) move up by 32, everything else stays -/
+theorem lowerChar_latin1 : ∀ n : Fin 256, lowerChar (Char.ofNat n) =
+    Char.ofNat (if (65 ≤ n.val ∧ n.val ≤ 90) ∨ (192 ≤ n.val ∧ n.val ≤ 222 ∧ n.val ≠ 215) then n.val + 32 else n.val) := by
+  decide
+
+set_option maxRecDepth 100000 in
+theorem lowerChar_idem_latin1 : ∀ n : Fin 256, lowerChar (lowerChar (Char.ofNat n)) = lowerChar (Char.ofNat n) := by
+  decide
+
+theorem lowerChar_idem (c : Char) : lowerChar (lowerChar c) = lowerChar c := by
+  by_cases h : c.toNat < 256
+  · have := lowerChar_idem_latin1 ⟨c.toNat, h⟩
+    simpa [Char.ofNat_toNat] using this
+  · rw [lowerChar_out_of_scope c (by omega), lowerChar_out_of_scope c (by omega)]
+
+theorem pyLower_toList (l : String) : (pyLower l).toList = l.toList.map lowerChar := by
+  simp [pyLower]
+
+theorem pyLower_idem (l : String) : pyLower (pyLower l) = pyLower l := by
+  apply String.toList_inj.1
+  rw [pyLower_toList, pyLower_toList, List.map_map]
+  apply List.map_congr_left
+  intro c _
+  exact lowerChar_idem c
+
+theorem pyLower_out_of_scope (l : String) (h : ∀ c ∈ l.toList, 256 ≤ c.toNat) : pyLower l = l := by
+  apply String.toList_inj.1
+  rw [pyLower_toList]
+  conv => rhs; rw [← List.map_id l.toList]
+  apply List.map_congr_left
+  intro c hc
+  exact lowerChar_out_of_scope c (h c hc)
+
+end DendroModel.C10.Aux
